@@ -303,3 +303,306 @@ def replay_c17(doc):
     for v in bad[:3]:
         print('  ', v['what'], v.get('witness'))
     return not bad
+
+
+def c14_caches(table, reg, tier, seed):
+    """C14 stand-in (bounded): the real JsonCache / NumpyArrayCache / DataFrameCache / InMemoryCache in a temp dir:
+    round trips, key verification, every truncation of a stored file, distinct keys / sub-caches, force, raising computer."""
+    import contextlib
+    import io
+    import numpy as np
+    import pandas as pd
+    from pathlib import Path
+    from taskchain import cache as C
+    r = random.Random(seed)
+    violations = []
+    tried = 0
+
+    def viol(ob, what, witness):
+        violations.append({'obligation': f'C14.standin.{ob}', 'kind': 'extra', 'check': 'c14_caches', 'what': what, 'witness': repr(witness)[:300]})
+    tmp = Path(tempfile.mkdtemp(prefix='c14_'))
+    quiet_out, quiet_err = contextlib.redirect_stdout(io.StringIO()), contextlib.redirect_stderr(io.StringIO())
+    quiet_out.__enter__()
+    quiet_err.__enter__()
+    import logging
+    logging.getLogger('cache').disabled = True
+    try:
+        keys = ['', 'a', 'b', 'ab', 'café', 'café', 'k' * 300, ' ', 'a/b', '{"x": 1}', 'A', ' ', '0', 'key\n']
+        jvals = [v for v in _json_values(r, 10 if tier == 'quick' else 100)]
+        makers = [('json', lambda d: C.JsonCache(d), jvals, _eq),
+                  ('npy', lambda d: C.NumpyArrayCache(d), [np.arange(3), np.array(2.5), np.zeros((2, 2)), np.array(['a', 'b'])], _eq),
+                  ('pd', lambda d: C.DataFrameCache(d), [pd.DataFrame({'a': [1, 2]}), pd.DataFrame()], _eq)]
+        for name, mk, vals, eq in makers:
+            cache = mk(tmp / name)
+            # distinct keys never share entries; values round trip; second call does not compute
+            stored = {}
+            for i, k in enumerate(keys):
+                v = vals[i % len(vals)]
+                calls = []
+                tried += 1
+                try:
+                    got = cache.get_or_compute(k, lambda v=v: calls.append(1) or v)
+                except Exception as e:
+                    viol(f'{name}.miss', f'get_or_compute on a fresh key raised {type(e).__name__}: {e}', k)
+                    continue
+                if len(calls) != 1 or not eq(got, v):
+                    viol(f'{name}.miss', 'a fresh key did not compute exactly once and return the computed value', (k, len(calls)))
+                stored[k] = v
+            for k, v in stored.items():
+                calls = []
+                tried += 1
+                try:
+                    got = cache.get_or_compute(k, lambda: calls.append(1) or 'OTHER')
+                    got2 = cache.get(k)
+                except Exception as e:
+                    viol(f'{name}.hit', f'reading a stored key raised {type(e).__name__}: {e}', k)
+                    continue
+                if calls or not eq(got, v) or not eq(got2, v):
+                    viol(f'{name}.hit', 'a stored key was recomputed or returned another value (entries shared between keys?)', (k, len(calls)))
+            # force replaces
+            k = 'a'
+            tried += 1
+            newv = vals[-1]
+            got = cache.get_or_compute(k, lambda: newv, force=True)
+            again = cache.get_or_compute(k, lambda: 'OTHER')
+            if not eq(got, newv) or not eq(again, newv):
+                viol(f'{name}.force', 'force=True did not recompute and replace the stored value', k)
+            # a raising computer stores nothing
+            tried += 1
+            try:
+                cache.get_or_compute('fresh-raise', lambda: 1 // 0)
+                viol(f'{name}.raises', 'an exception of the computer did not propagate', 'fresh-raise')
+            except ZeroDivisionError:
+                pass
+            if cache.get('fresh-raise') is not C.NO_VALUE:
+                viol(f'{name}.raises', 'a raising computation left a value behind', 'fresh-raise')
+            # never computes
+            if cache.get('never-stored') is not C.NO_VALUE:
+                viol(f'{name}.get', 'get of an unknown key did not return NO_VALUE', 'never-stored')
+            # sub-caches are separate
+            sub = cache.subcache('sub')
+            tried += 1
+            calls = []
+            sub.get_or_compute('a', lambda: calls.append(1) or vals[0])
+            if not calls:
+                viol(f'{name}.subcache', 'a sub-cache shares an entry with its parent', 'a')
+            # every truncation of a stored file is recomputed, never returned
+            fp = cache.filepath('b')
+            data = fp.read_bytes()
+            cuts = sorted(set(list(range(0, min(len(data), 40))) + [len(data) // 2, len(data) - 1])) if tier == 'thorough' else \
+                sorted({0, 1, len(data) // 2, len(data) - 1})
+            for cut in cuts:
+                if cut >= len(data):
+                    continue
+                fp.write_bytes(data[:cut])
+                calls = []
+                tried += 1
+                try:
+                    got = cache.get_or_compute('b', lambda: calls.append(1) or stored['b'])
+                    if not calls or not eq(got, stored['b']):
+                        # (a prefix that still decodes to the same value would be fine; none does for these formats)
+                        viol(f'{name}.damaged', f'a file truncated to {cut} of {len(data)} bytes was returned as a value instead of recomputed', cut)
+                except C.CacheException:
+                    pass
+                except Exception as e:
+                    viol(f'{name}.damaged', f'a file truncated to {cut} of {len(data)} bytes made get_or_compute raise {type(e).__name__}', cut)
+                fp.write_bytes(data[:cut])
+                try:
+                    g = cache.get('b')
+                    if g is not C.NO_VALUE and not eq(g, stored['b']):
+                        viol(f'{name}.damaged_get', f'get returned a value from a file truncated to {cut} bytes', cut)
+                except C.CacheException:
+                    pass
+                except Exception as e:
+                    viol(f'{name}.damaged_get', f'get raised {type(e).__name__} on a truncated file', cut)
+                fp.write_bytes(data)
+        # JsonCache verifies the stored key
+        jc = C.JsonCache(tmp / 'jk')
+        jc.get_or_compute('k1', lambda: 1)
+        fp1, fp2 = jc.filepath('k1'), jc.filepath('k2')
+        fp2.parent.mkdir(exist_ok=True, parents=True)
+        shutil.copyfile(fp1, fp2)
+        tried += 1
+        try:
+            jc.get_or_compute('k2', lambda: 2)
+            viol('json.wrong_key', 'a file recorded for another key was not reported', 'k2')
+        except C.CacheException:
+            pass
+        # in-memory cache
+        mc = C.InMemoryCache()
+        calls = []
+        mc.get_or_compute('x', lambda: calls.append(1) or 5)
+        mc.get_or_compute('x', lambda: calls.append(1) or 6)
+        tried += 1
+        if len(calls) != 1 or mc.get('x') != 5 or mc.get('y') is not C.NO_VALUE or mc.subcache('s') is not mc.subcache('s') or mc.subcache('s') is mc.subcache('t'):
+            viol('memory', 'InMemoryCache: hit / miss / sub-cache identity violated', 'x')
+    finally:
+        quiet_err.__exit__(None, None, None)
+        quiet_out.__exit__(None, None, None)
+        shutil.rmtree(tmp, ignore_errors=True)
+    seen, uniq = set(), []
+    for v in violations:
+        if v['obligation'] not in seen:
+            seen.add(v['obligation'])
+            uniq.append(v)
+    return {'name': 'c14_caches', 'bounded': [{'what': 'real file caches in a temporary directory: round trips, distinct keys incl. unicode normalisation pairs, force, raising computer, key verification, truncations of stored files, sub-caches',
+                                                'bound': f'{tried} operations; truncations at 4 (quick) / up to 42 (thorough) cut points per cache type', 'tried': tried}],
+            'violations': uniq}
+
+
+def replay_c14(doc):
+    out = c14_caches(None, None, 'thorough', 0)
+    bad = [v for v in out['violations'] if v['obligation'] == doc['obligation']]
+    for v in bad[:3]:
+        print('  ', v['what'], v.get('witness'))
+    return not bad
+
+
+def c16_cached(table, reg, tier, seed):
+    """C16 stand-in (bounded): the real `cached` decorator on methods of every accepted signature shape, all call
+    spellings of one binding, differing bindings, ignored arguments, versions, control keywords."""
+    import itertools
+    from taskchain import cache as C
+    r = random.Random(seed)
+    violations = []
+    tried = 0
+
+    def viol(ob, what, witness):
+        violations.append({'obligation': f'C16.standin.{ob}', 'kind': 'extra', 'check': 'c16_cached', 'what': what, 'witness': repr(witness)[:300]})
+
+    def make(sig, body_ret='(a, b, c, d)', **deco):
+        ns = {'cached': C.cached, 'InMemoryCache': C.InMemoryCache}
+        src = f'''
+class K:
+    def __init__(self):
+        self.cache = InMemoryCache()
+        self.calls = []
+    @cached(**DECO)
+    def m(self, {sig}):
+        self.calls.append({body_ret})
+        return {body_ret}
+    @cached(**DECO)
+    def other(self, {sig}):
+        self.calls.append(('other',) + {body_ret})
+        return ('other',) + {body_ret}
+'''
+        ns['DECO'] = deco
+        exec(src, ns)
+        return ns['K']
+    values = [None, 0, 1, '', 'x', [1, 2], {'p': 1, 'q': [2]}, {'q': [2], 'p': 1}, True, 1.5]
+    shapes = [('a, b=10, c=None, *, d=20', {'b': 10, 'c': None, 'd': 20}),
+              ('a, b=0, c="s", d=None', {'b': 0, 'c': 's', 'd': None}),
+              ('a, b, c=[1], *, d', {'c': [1]})]
+    for sig, defaults in shapes:
+        K = make(sig)
+        kwonly = '*' in sig and sig.split('*')[1]
+        names = ['a', 'b', 'c', 'd']
+        for trial in range(6 if tier == 'quick' else 60):
+            binding = {n: r.choice(values) for n in names}
+            for n, dv in defaults.items():
+                if r.random() < 0.5:
+                    binding[n] = dv
+            # all spellings of this binding
+            pos_names = [n for n in names if not (kwonly and n == 'd' and '* , d' in sig.replace('*,', '* ,')) and not (sig.split('*')[-1].strip().startswith('d') and '*' in sig and n == 'd')]
+            spellings = []
+            for npos in range(0, len(pos_names) + 1):
+                args = [binding[n] for n in pos_names[:npos]]
+                rest = [n for n in names if n not in pos_names[:npos]]
+                for omit in itertools.product([False, True], repeat=len(rest)):
+                    kw = {}
+                    ok = True
+                    for n, o in zip(rest, omit):
+                        if o:
+                            if n in defaults and _eq_plain(defaults[n], binding[n]):
+                                continue
+                            ok = False
+                            break
+                        kw[n] = binding[n]
+                    if ok:
+                        for perm in ([list(kw.items())] + ([list(reversed(list(kw.items())))] if len(kw) > 1 else [])):
+                            spellings.append((args, dict(perm)))
+            k = K()
+            results = []
+            for args, kw in spellings:
+                tried += 1
+                try:
+                    results.append(k.m(*args, **kw))
+                except Exception as e:
+                    viol('spelling', f'a valid spelling raised {type(e).__name__}: {e}', (sig, args, kw))
+                    break
+            else:
+                if len(k.calls) != 1:
+                    viol('same_binding', f'{len(spellings)} spellings of one binding executed the method {len(k.calls)} times', (sig, binding, spellings[:4]))
+            # a differing binding uses a different entry
+            other = dict(binding)
+            n = r.choice(names)
+            other[n] = r.choice([v for v in values if not _eq_plain(v, binding[n]) and _json_distinct(v, binding[n])])
+            before = len(k.calls)
+            tried += 1
+            try:
+                k.m(**other)
+                if len(k.calls) != before + 1:
+                    viol('diff_binding', 'a call differing in one argument was served from the other call\'s entry', (sig, binding, other))
+            except TypeError:
+                pass
+            # different methods never share entries
+            before = len(k.calls)
+            k.other(**binding)
+            if len(k.calls) != before + 1:
+                viol('methods', 'two methods of one object shared a cache entry', (sig, binding))
+    # ignored arguments, versions, control keywords
+    K = make('a, b=1, c=2, d=3', ignore_kwargs=['d'])
+    k = K()
+    k.m(1, d=5)
+    k.m(1, d=6)
+    tried += 2
+    if len(k.calls) != 1:
+        viol('ignored', 'an ignored argument changed the cache entry', 'd')
+    K1, K2 = make('a, b=1, c=2, d=3', version='v1'), make('a, b=1, c=2, d=3', version='v2')
+    k1 = K1()
+    k2 = K2()
+    k2.cache = k1.cache
+    k1.m(1)
+    k2.m(1)
+    tried += 2
+    if len(k1.calls) != 1 or len(k2.calls) != 1:
+        viol('versions', 'two versions of a method shared a cache entry', 'v1/v2')
+    K = make('a, b=1, c=2, d=3')
+    k = K()
+    tried += 6
+    if k.m(1, only_cache=True) is not C.NO_VALUE or k.calls:
+        viol('only_cache', 'only_cache=True computed or returned something for an unknown entry', 1)
+    for sv in (None, 0, 'v', [], False):
+        k = K()
+        got = k.m(1, store_cache_value=sv)
+        if k.calls or not _eq_plain(got, sv) or not _eq_plain(k.m(1), sv) or k.calls:
+            viol('store_cache_value', f'store_cache_value={sv!r} did not supply the value in place of calling the method', sv)
+    k = K()
+    k.m(1)
+    k.m(1, force_cache=True)
+    if len(k.calls) != 2:
+        viol('force_cache', 'force_cache=True did not recompute', 1)
+    seen, uniq = set(), []
+    for v in violations:
+        if v['obligation'] not in seen:
+            seen.add(v['obligation'])
+            uniq.append(v)
+    return {'name': 'c16_cached', 'bounded': [{'what': 'real `cached` decorator: all spellings (positional prefix x omitted defaults x keyword order) of random bindings over 3 signature shapes; differing bindings; ignored args; versions; control keywords',
+                                                'bound': f'{tried} calls (seed {seed})', 'tried': tried}],
+            'violations': uniq}
+
+
+def _eq_plain(a, b):
+    return type(a) is type(b) and a == b
+
+
+def _json_distinct(a, b):
+    return json.dumps(a, sort_keys=True) != json.dumps(b, sort_keys=True)
+
+
+def replay_c16(doc):
+    out = c16_cached(None, None, 'thorough', 0)
+    bad = [v for v in out['violations'] if v['obligation'] == doc['obligation']]
+    for v in bad[:3]:
+        print('  ', v['what'], v.get('witness'))
+    return not bad
